@@ -42,6 +42,12 @@ impl SwiftField for Field90D {
     where
         Self: Sized,
     {
+        if !input.is_ascii() {
+            return Err(ParseError::InvalidFormat {
+                message: "Field 90D must contain only ASCII characters".to_string(),
+            });
+        }
+
         let mut remaining = input;
 
         // Parse number of transactions (5n)
@@ -145,6 +151,12 @@ impl SwiftField for Field90C {
     where
         Self: Sized,
     {
+        if !input.is_ascii() {
+            return Err(ParseError::InvalidFormat {
+                message: "Field 90C must contain only ASCII characters".to_string(),
+            });
+        }
+
         let mut remaining = input;
 
         // Parse number of transactions (5n)
